@@ -110,6 +110,12 @@ def spellings(rng, u, mods):
     prefs = [m for m in mods if ("SIUnitSymbolModifier" if sym else "SIUnitModifier") in m["attrs"]] if "SIUnit" in a else []
     for m in rng.sample(prefs, min(4, len(prefs))):
         out.append((m["name"] + bases[0][0], True, m))
+        if sym:
+            # a prefixed symbol in another case (`MS`, `Kg`): folds onto the derived key but is not the declared symbol
+            full = m["name"] + name
+            legit = {mm["name"] + name for mm in prefs} | {name}
+            for alt in sorted({full.upper(), full.lower(), full.swapcase(), full.capitalize()} - legit):
+                out.append((alt, None, None))
     wrong = [m for m in mods if ("SIUnitModifier" if sym else "SIUnitSymbolModifier") in m["attrs"]]
     if wrong:
         out.append((rng.choice(wrong)["name"] + bases[0][0], None, None))
